@@ -47,6 +47,7 @@ func evalC07opt(depth int, grid []Cfg, light bool) func(x *Ctx, in Input) {
 			}
 			if r1 := x.Run(in, c, nil); !bytes.Equal(r1.Ser(), base) {
 				x.Violate("C07:repeat-differs", &c, nil, "the same call repeated in the same process returned a different layout\nfirst:\n"+describeLayout(r0.L)+"second:\n"+describeLayout(r1.L))
+				continue // with a result that drifts from call to call, comparing deviating runs with the first one says nothing about map order
 			}
 			x.Hist("choice-points-per-run", len(r0.Trace))
 			npts := 0
